@@ -1,17 +1,21 @@
-"""Registry of translation units: which functions of /repo are regenerated into coq/Generated/*.v.
+"""Registry of translation units: which parts of /repo are regenerated into coq/Generated/*.v.
 
-Each unit becomes one file coq/Generated/<Name>.v.  `props` lists the properties whose proofs
-rest on the unit (used only for reporting which obligation a translator failure breaks).
+Each unit becomes one file coq/Generated/<Name>.v.  Two kinds:
+  * functions=[spec, ...]  -- translated from the source text by tools/py2v.py (never imported/run);
+  * dumper="dump_xxx.py", args=[...] -- printed from the live module objects (tables, enums, struct
+    formats, signatures) by a script run under the repo's interpreter with PYTHONPATH=/repo.
+The registry is the union of the UNITS dictionaries of every tools/units_*.py file.
 """
+import glob
+import importlib.util
+import os
 
-UNITS = {
-    "GenAlloc": dict(
-        props=["C05", "C01", "C17"],
-        functions=[
-            dict(file="rig/place_and_route/allocate/utils.py", name="slices_overlap",
-                 coq="slices_overlap", params={"slice_a": "slice", "slice_b": "slice"},
-                 ret="bool"),
-            dict(file="rig/place_and_route/allocate/utils.py", name="align",
-                 coq="align", params={"value": "Z", "alignment": "Z"}, ret="Z"),
-        ]),
-}
+UNITS = {}
+for _p in sorted(glob.glob(os.path.join(os.path.dirname(os.path.abspath(__file__)), "units_*.py"))):
+    _s = importlib.util.spec_from_file_location(os.path.basename(_p)[:-3], _p)
+    _m = importlib.util.module_from_spec(_s)
+    _s.loader.exec_module(_m)
+    for _k, _v in _m.UNITS.items():
+        if _k in UNITS:
+            raise RuntimeError("translation unit %s defined twice" % _k)
+        UNITS[_k] = _v
